@@ -10,6 +10,7 @@ import (
 	"verif/internal/c04"
 	"verif/internal/c06"
 	"verif/internal/c07"
+	"verif/internal/c08"
 	"verif/internal/c11"
 	"verif/internal/c19"
 )
@@ -21,6 +22,7 @@ func init() {
 	monitors["C04"] = c04.Run
 	monitors["C06"] = c06.Run
 	monitors["C07"] = c07.Run
+	monitors["C08"] = c08.Run
 	monitors["C11"] = c11.Run
 	monitors["C19"] = c19.Run
 }
